@@ -696,7 +696,7 @@ func TestC26(t *testing.T) {
 	r.Assume("component texts are flattened with go.minekube.com/common's plain codec; formatting is not compared")
 	r.Set("adjudication", ref.Adjudication)
 
-	n := r.N(20000, 5000000)
+	n := r.N(20000, 3000000)
 	rng := r.Rng("requests")
 	perSub := map[string]int{}
 	perClass := map[string]int{}
